@@ -49,7 +49,7 @@ REQUIRED_CLAUSES = [
 ]
 REQUIRED_FEATURES = {
     "sa:canonical": 300, "sa:shuffled-clean": 50, "sa:bracket-in-last-sort": 50, "sa:later-sort-token": 100, "sa:space-before-colon": 30,
-    "sa:cfg:inner-hits-sorted": 20, "sa:cfg:top-hits-sorted": 20, "sa:cfg:source-sort-shuffled": 20, "sa:cfg:value-token": 20, "sa:cfg:fat-tail-after-last-sort": 10,
+    "sa:cfg:inner-hits-sorted": 20, "sa:cfg:top-hits-sorted": 20, "sa:cfg:source-sort-shuffled": 20, "sa:cfg:value-token": 20, "sa:cfg:fat-tail-after-last-sort": 10, "sa:cfg:very-fat-tail-after-last-sort": 3,
     "ca:canonical": 200, "ca:after-key-null": 50, "ca:float": 50, "ca:nested-path": 50,
     "bulk:canonical": 300, "bulk:errors": 100, "bulk:errors-false-but-failed-item": 50, "bulk:error-string": 20, "bulk:unit-not-docs": 20,
     "scroll:es6-total": 10, "big-response": 5, "layout:pretty": 100, "layout:compact": 1000, "order:shuffled": 300, "raw-utf8": 300,
@@ -722,6 +722,9 @@ def gen_case(rng, big_p=0.003):
                 if cfg.fat_tail == "inner":
                     cfg.inner_hits = 0
                 case["hints"].append("fat-tail-after-last-sort")
+                if rng.random() < 0.3:
+                    cfg.fat_scale = rng.choice([12, 12, 40])
+                    case["hints"].append("very-fat-tail-after-last-sort")
         elif prof == "bracket":
             cfg.rb_in_sort = cfg.rb_last = True
         elif prof == "later":
